@@ -19,7 +19,7 @@ RULE = ("URLs rendered from the product of component shapes (7 scheme spellings 
         "single and pairwise deviation from a base URL plus a seeded sample, thorough = the full product; plus seeded random URLs with random tokens; x suffix_aware. "
         "A case is (url, suffix_aware); non-trivial = the URL has at least two of {userinfo, port, non-root path, query, fragment} or a special host; distinct = distinct (url, suffix_aware).")
 ASSUMPTIONS = ["urllib.parse.urlsplit reads both sides", "URLs contain no '|', no empty password, no '@' inside userinfo, no trailing-dot host, no surrounding whitespace (outside the stated quantifier)"]
-FLOORS = ["host-ipv6-hex", "host-ipv6-dec", "host-ipv4", "host-localhost", "port-empty", "port-with-ipv6", "userinfo-password-only", "path-empty-segment",
+FLOORS = ["purity-under-interference-checked", "host-ipv6-hex", "host-ipv6-dec", "host-ipv4", "host-localhost", "port-empty", "port-with-ipv6", "userinfo-password-only", "path-empty-segment",
           "suffix-pair", "suffix-none", "query-with-colon-at", "roundtrip-ok"]
 PROBE_FLOORS = ["lru_stems_from_parsed_url", "lru_to_url", "unserialize_lru"]
 
@@ -132,6 +132,7 @@ def check(ctx, u, sa, mods):
         ok = False
     if ok:
         ctx.count("roundtrip-ok")
+    interference(ctx, u, sa, lru_stems, stems, wit)
     # bookkeeping
     if ref.hostname == "localhost":
         ctx.count("host-localhost")
@@ -152,6 +153,43 @@ def check(ctx, u, sa, mods):
                             len(ref.path) > 1, bool(ref.query), bool(ref.fragment)) if x)
     if feats >= 2 or "[" in ref.netloc or ref.hostname in ("localhost",):
         ctx.nontrivial((u, sa))
+
+
+TRIES = {}
+
+
+def interference(ctx, u, sa, lru_stems, stems, wit):
+    """The conversion is a function of its arguments: using the same URL through the other consumers of the stems (the LRU tries of
+    ural.lru, which tokenize with lru_stems) and mutating the list a previous call returned must not change what the next call returns."""
+    snapshot = list(stems)
+    try:
+        if not TRIES:
+            from ural.lru import LRUTrie, NormalizedLRUTrie
+            TRIES[False], TRIES[True] = LRUTrie(suffix_aware=False), LRUTrie(suffix_aware=True)
+            TRIES["n"] = NormalizedLRUTrie()
+        t = TRIES[sa]
+        t.set(u, 1)
+        t.match(u)
+        if ctx.evaluations % 16 == 0:
+            try:
+                TRIES["n"].set(u, 1)
+                TRIES["n"].match(u)
+            except Exception:
+                pass  # the normalized trie's own input domain is judged by other properties
+            if ctx.evaluations % 1024 == 0:
+                TRIES.clear()
+    except Exception as e:
+        ctx.count("interference-trie-raised:" + type(e).__name__)
+    stems.append("p:mutated-by-the-caller")
+    del stems[0]
+    try:
+        again = lru_stems(u, suffix_aware=sa)
+    except Exception as e:
+        ctx.viol("C12:exception:to-lru-second-call:" + ctx.exc("lru", e), wit)
+        return
+    ctx.count("purity-under-interference-checked")
+    if again != snapshot:
+        ctx.viol("C12:result-changes-after-trie-use-or-caller-mutation", wit, {"first": snapshot, "after": again})
 
 
 def install(ctx):
